@@ -1119,6 +1119,28 @@ CHECKS['C10']['text'] += (
     'the n-fold iterate of the map computed from a fresh store (history_invariant; aliasedCalls is executed by the driver and '
     'compared with 3 aliased calls on the real operators).')
 
+# ---- round 4: each property's own report docs/round4/Cxx.json (theorems_total, text_append) ----
+import glob as _glob
+
+for _f in sorted(_glob.glob(os.path.join(HERE, 'docs', 'round4', 'C*.json'))):
+    try:
+        _r = json.load(open(_f))
+    except Exception:
+        continue
+    _pid = _r.get('property')
+    if _pid in CHECKS and _r.get('text_append'):
+        # the count is taken from the Props file itself so that text and file cannot drift apart
+        try:
+            _n = sum(1 for _l in open(os.path.join(HERE, 'lean', 'OdlModel', 'Props', _pid + '.lean'))
+                     if _l.startswith('theorem ' + _pid + '.'))
+            _count(_pid, _n)
+        except Exception:
+            pass
+        _t = _r['text_append'].strip()
+        if not _t.upper().startswith('ROUND 4'):
+            _t = 'ROUND 4: ' + _t
+        CHECKS[_pid]['text'] += ' ' + _t
+
 NOT_YET = {}
 
 
